@@ -290,7 +290,7 @@ class SymBool:
 
 def symbool(name, control=True):
     if CTX.mode == "concrete":
-        return bool(CTX.values[name])
+        return bool(CTX.values.get(name, False))
     if name in CTX.pins:
         return bool(CTX.pins[name])
     if control:
@@ -888,7 +888,8 @@ def _int_fp(e):
 
 def symint(name, control=True):
     if CTX.mode == "concrete":
-        return int(CTX.values[name])
+        v = CTX.values.get(name, 0)
+        return int(v[0] // v[1]) if isinstance(v, (list, tuple)) else int(v)
     if name in CTX.pins:
         return int(CTX.pins[name])
     if control:
@@ -1156,9 +1157,20 @@ def prove_equal(label, a, b, info=None):
             _concrete_fail(label, info, dict(impl=fa, spec=fb))
             return False
         return True
+    if a is b:
+        CTX.stats["obligations"] += 1
+        CTX.stats["queries"] += 1
+        CTX.stats["unsat"] += 1
+        CTX.stats["stage1"] += 1
+        return True
     a, b = SymReal.lift(a), SymReal.lift(b)
     CTX.stats["obligations"] += 1
     tmo = CTX.opts.get("query_timeout_ms", 30000)
+    if a.c is None and b.c is None and a.fn == b.fn and a.df.keys() == b.df.keys() and a.n.eq(b.n):
+        CTX.stats["queries"] += 1
+        CTX.stats["unsat"] += 1
+        CTX.stats["stage1"] += 1
+        return True
     if a.c is not None and b.c is not None:
         CTX.stats["queries"] += 1
         if a.c == b.c:
